@@ -1,5 +1,6 @@
 import GarbleVerif.Proofs.BitOps
 import GarbleVerif.Proofs.BitOps2
+import GarbleVerif.Proofs.BitWise
 import GarbleVerif.Proofs.SrcFrame
 /-! Operator-level lemmas: the bit-level operators of the core fragment (Model/BitSem.lean) against the
 source operators (Model/SrcSem.lean). -/
@@ -174,6 +175,18 @@ theorem binBits_sound (op : Src.BinOp) (t : STy) (x y : List Bool) (va vb : Val)
       simp only [Option.some.injEq, Prod.mk.injEq] at h; obtain ⟨rfl, rfl, rfl⟩ := h
       simp [Src.binop, Val.beq, Rel, firstOf]
       by_cases hab : a = b <;> simp [hab]
+    case band =>
+      rw [binop_band k a b] at h
+      simp only [Option.some.injEq, Prod.mk.injEq] at h; obtain ⟨rfl, rfl, rfl⟩ := h
+      simp [Src.binop, STy.toTy, intOp, Rel, firstOf, bitwise_inRange]
+    case bor =>
+      rw [binop_bor k a b] at h
+      simp only [Option.some.injEq, Prod.mk.injEq] at h; obtain ⟨rfl, rfl, rfl⟩ := h
+      simp [Src.binop, STy.toTy, intOp, Rel, firstOf, bitwise_inRange]
+    case bxor =>
+      rw [binop_bxor k a b] at h
+      simp only [Option.some.injEq, Prod.mk.injEq] at h; obtain ⟨rfl, rfl, rfl⟩ := h
+      simp [Src.binop, STy.toTy, intOp, Rel, firstOf, bitwise_inRange]
     all_goals (simp at h)
 
 /-- the strict binary operators are defined on operands of the operator's type -/
